@@ -424,7 +424,7 @@ class Formatter:
         expr, type = json
 
         type_name, params = first(type.items())
-        if not params:
+        if not params and params != 0:
             type = type_name.upper()
         else:
             type = {type_name.upper(): params}
